@@ -182,6 +182,9 @@ func GenCorpus(r *rand.Rand, opts CorpusOpts) *Corpus {
 	co := &Corpus{Vocab: GenVocab(r, 3+r.Intn(6))}
 	co.GeoCX, co.GeoCY = r.Float64()*360-180, r.Float64()*170-85
 	co.GeoSpr = []float64{0.01, 1, 30, 180}[r.Intn(4)]
+	if !GeoHeavy && co.GeoSpr == 180 && r.Intn(4) != 0 {
+		co.GeoSpr = 5 // world-wide spreads (boxes hundreds of degrees wide) are kept rare outside the thorough tier
+	}
 	nd := 1 + r.Intn(opts.MaxDocs)
 	if r.Intn(40) == 0 {
 		nd = 0
@@ -382,7 +385,11 @@ func GenLeaf(r *rand.Rand, co *Corpus, kind string) *Q {
 		}
 		return &Q{Kind: "geobox", Field: "g", MinLon: minLon, MaxLon: maxLon, MinLat: minLat, MaxLat: maxLat}
 	case "geodist":
-		dist := []float64{10, 1000, 100000, 2000000, 15000000}[r.Intn(5)] * (0.5 + r.Float64())
+		dists := []float64{10, 1000, 100000, 2000000}
+		if GeoHeavy {
+			dists = append(dists, 15000000) // planet-scale radii cost seconds per search
+		}
+		dist := dists[r.Intn(len(dists))] * (0.5 + r.Float64())
 		px := co.GeoCX + (r.Float64()*2-1)*co.GeoSpr/2
 		py := math.Max(-90, math.Min(90, co.GeoCY+(r.Float64()*2-1)*co.GeoSpr/4))
 		for px > 180 {
@@ -418,3 +425,6 @@ func GenQuery(r *rand.Rand, co *Corpus, o QueryOpts, depth int) *Q {
 	b.MinShould = r.Intn(3)
 	return b
 }
+
+// GeoHeavy enables planet-scale geo queries and world-wide point spreads (thorough tiers).
+var GeoHeavy bool
